@@ -7,6 +7,9 @@ each operation to armi and to a tiny reference model (child lists + parent ids +
 EVERY step, compares the whole forest with the model and runs a bundle of traversal queries with generated
 arguments against a naive walk of the model.
 """
+import os
+import re
+
 from hypothesis import strategies as st
 
 from vp.runner import Out, Part
@@ -34,6 +37,8 @@ ASSUMPTIONS = [
 # a known defect shape is kept out of the search by construction (see replays/C01/defect_*.json)
 SIG_EXCORE = "c01/copy/reactor-excore-not-relinked"
 EXCLUDE_KNOWN = {SIG_EXCORE: True}  # a replay case may carry "noexclude": true to reproduce the defect
+if os.environ.get("VP_C01_NOEXCLUDE"):  # debugging aid: search the excluded shape again (e.g. on a repaired tree)
+    EXCLUDE_KNOWN[SIG_EXCORE] = False
 
 KINDS = ["generic", "block", "assembly", "core"]
 OPS = {
@@ -52,6 +57,7 @@ GEN_TYPES = ["fuel", "clad", "duct", "control", "inner fuel", "driver fuel", "sh
 CORE_CELLS = [(0, 0), (1, 0), (0, 1), (-1, 1), (-1, 0), (0, -1), (1, -1), (2, 0), (1, 1), (0, 2), (-1, 2), (-2, 2),
               (-2, 1), (-2, 0), (-1, -1), (0, -2), (1, -2), (2, -2), (2, -1)]
 BIG = 10**6
+_IDS = re.compile(r"(id:| -- )\d+")
 
 
 # ----------------------------------------------------------------------------------------------------
@@ -138,7 +144,7 @@ def _armi():
 
 
 class Node:
-    __slots__ = ("nid", "obj", "cls", "geom", "children", "parent", "detached", "copied", "locs")
+    __slots__ = ("nid", "obj", "cls", "geom", "children", "parent", "detached", "copied", "locs", "last")
 
     def __init__(self, nid, obj, cls, geom):
         self.nid, self.obj, self.cls, self.geom = nid, obj, cls, geom
@@ -147,6 +153,7 @@ class Node:
         self.detached = False  # taken out of a parent by remove/removeAll/setChildren/removeAssembly
         self.copied = False  # belongs to a tree produced by deepcopy / pickle
         self.locs = {}  # Core only: (i, j) -> assembly node id
+        self.last = None  # id of the parent it was last removed from
 
     def __repr__(self):
         return "#%d%s" % (self.nid, self.cls)
@@ -194,7 +201,13 @@ class Interp:
 
     # ---- bookkeeping -----------------------------------------------------------------------------
     def fail(self, sig, msg):
+        msg = _IDS.sub(lambda m: m.group(1) + "*", msg)  # object ids out of armi's reprs: messages stay reproducible
         self.out.fail("c01/" + sig, "step %d (%s): %s" % (self.step, self.opname, msg))
+
+    def gate(self):
+        """One root cause, one signature: stop at the first query group that disagrees."""
+        if self.out.violations:
+            raise Stop()
 
     def new_node(self, obj, cls, geom=None):
         n = Node(len(self.nodes), obj, cls, geom)
@@ -252,6 +265,7 @@ class Interp:
         p = self.par(c)
         p.children.remove(c.nid)
         c.parent = None
+        c.last = p.nid
         c.detached = True
         if p.cls == "K":
             for key in [k for k, v in p.locs.items() if v == c.nid]:
@@ -604,10 +618,12 @@ class Interp:
         if len(got) != len(want) or any(type(g) is not type(w.obj) or g.name != w.obj.name for g, w in zip(got, want)):
             self.fail("replace/children-differ-from-replacement", "block has %r, replacement has %r" % (got, [w.obj for w in want]))
             raise Stop()
+        self.pre_ids = set(self.by_id)
         for g in got:
             if id(g) in self.by_id:
                 self.fail("replace/shares-node", "%r of the replaced block is an object that already existed" % (g,))
                 raise Stop()
+            self.check_links(g, "replaceBlockWithBlock")  # the new components are copies of the replacement's
             self.link(b, self.new_node(g, "C"))
         return True
 
@@ -648,7 +664,7 @@ class Interp:
                 self.do_add(p, c, r["ijk"], pick=r["b"])
             if was_detached:
                 self.nt_readd = True
-                self.out.label("readd-of-removed")
+                self.out.label("readd-of-removed:" + ("same-parent" if c.last == p.nid else "other-parent"))
             return True
         return False
 
@@ -934,6 +950,7 @@ class Interp:
         other = self.nodes[q[5] % len(self.nodes)]
         if (other.obj in o) != (other.parent == n.nid):
             self.fail("query/contains", "%r in %r is %s" % (other.obj, o, other.obj in o))
+        self.gate()
         # -- predicate family
         with_types = n.cls != "R"  # Core/SFP/Reactor objects have no ``type`` parameter
         types = sorted({x.obj.p.type for x in self.subtree(n)[1:]} | {"nope"}) if with_types else ["nope"]
@@ -965,6 +982,7 @@ class Interp:
             got = self.strip_materials(got, "query/materials-deep", what)
         if got is not None:
             self.check_deep(got, n, keep, "query/deep", what)
+        self.gate()
         # -- one generation
         what = "getChildren(generationNum=%d, includeMaterials=%s, predicate=%s) of %r" % (gen, mats, pname, o)
         got = o.getChildren(generationNum=gen, includeMaterials=mats, predicate=pred)
@@ -974,22 +992,26 @@ class Interp:
             self.check_exact(got, [x for x in self.naive_gen(n, gen) if keep(x.obj)], "query/generation", what)
         it = list(o.iterChildren(generationNum=gen, predicate=pred))
         self.check_exact(it, [x for x in self.naive_gen(n, gen) if keep(x.obj)], "query/generation", "iterChildren(generationNum=%d, predicate=%s) of %r" % (gen, pname, o))
+        self.gate()
         # -- flags
         mspec, aspec, exact = self.decode_spec(q[3])
         stext = self.spec_text(mspec, exact)
         want = ref_has_flags(ref_flags(A, o), mspec, exact)
         if bool(o.hasFlags(aspec, exact=exact)) != want:
             self.fail("query/hasFlags", "%r with flags %s: hasFlags(%s) is %s" % (o, sorted(ref_flags(A, o)), stext, not want))
+        self.gate()
         wantkids = [c for c in kids if ref_has_flags(ref_flags(A, c.obj), mspec, exact)]
         self.check_exact(o.getChildrenWithFlags(aspec, exactMatch=exact), wantkids, "query/getChildrenWithFlags", "getChildrenWithFlags(%s) of %r" % (stext, o))
         self.check_exact(list(o.iterChildrenWithFlags(aspec, exactMatch=exact)), wantkids, "query/getChildrenWithFlags", "iterChildrenWithFlags(%s) of %r" % (stext, o))
         if with_types:
             wantkids = [c for c in kids if c.obj.p.type == tname]
             self.check_exact(o.getChildrenOfType(tname), wantkids, "query/getChildrenOfType", "getChildrenOfType(%r) of %r" % (tname, o))
+        self.gate()
         # -- leaf components
         wantc = self.naive_components(n, mspec, exact)
         self.check_exact(o.getComponents(aspec, exact), wantc, "query/getComponents", "getComponents(%s) of %r" % (stext, o))
         self.check_exact(list(o.iterComponents(aspec, exact)), wantc, "query/getComponents", "iterComponents(%s) of %r" % (stext, o))
+        self.gate()
         # -- ancestors
         chain = self.chain(n)
         target = other
@@ -1016,6 +1038,7 @@ class Interp:
         got = o.getAncestorWithFlags(aspec, exactMatch=exact)
         if got is not (exp.obj if exp else None):
             self.fail("query/getAncestorWithFlags", "getAncestorWithFlags(%s) of %r gives %r, parent chain gives %r" % (stext, o, got, exp and exp.obj))
+        self.gate()
         # -- whole trees: every root, all descendants and all leaf components
         for rt in self.nodes:
             if rt.parent is None and rt.children:
